@@ -254,6 +254,25 @@ def r23(facts, res):
         return min(hs, key=lambda h: len(loops[h])) if hs else bb
     pre = bool(ck) and all(b.dominates(hdr(bb), inner) and inner not in loops.get(hdr(bb), ()) for bb, t in ck) \
         and any(b.dominates(bb, inner) for bb in lens)
+    if not ck:
+        # the same check as `keys().all(|k| other.contains_key(k))`: the all() call dominates the pair loop and the pair loop is
+        # not reached when it answered false
+        for c in facts.closures_of(b):
+            if not c.calls_named('contains_key'):
+                continue
+            cps = Walker(c, facts, max_paths=16).run()
+            if not cps or not all(p.end[0] == 'return' and is_call(p.end[1], 'contains_key') for p in cps):
+                continue
+            for ab, at in b.calls_named('all'):
+                l = op_local(at['args'][1]) if len(at['args']) > 1 else None
+                if not any(kind == 'stmt' and 'agg' in rv and isinstance(rv['agg'], dict) and rv['agg'].get('closure') == c.path for _bb, kind, rv in b.defs().get(l, ())):
+                    continue
+                w2 = Walker(b, facts, max_paths=256)
+                ps2 = [p for p in w2.run(ab, stop=lambda x: x == inner) if p.end == ('stop', inner)]
+                passed = bool(ps2) and all(any(is_call(cd, 'all') and v == 1 for cd, v in p.conds) for p in ps2)
+                if b.dominates(ab, inner) and passed and any(b.dominates(bb, inner) for bb in lens):
+                    pre = True
+                    ck = [(ab, at)]
     if pre:
         res.ok(R, 'same-cores-first', loc_of(b, ck[0][0]), 'equal size and equal core items are checked before the pairwise conditions')
     else:
